@@ -9,3 +9,7 @@ import PorepyVerif.C29.Props
 #print axioms PorepyVerif.C29.inter_complete
 #print axioms PorepyVerif.C29.prefilter_sound
 #print axioms PorepyVerif.C29.side_prefilter_sound
+#print axioms PorepyVerif.C29.split_tag_info_complete
+#print axioms PorepyVerif.C29.split_union_eq
+#print axioms PorepyVerif.C29.prefilter_pairs_complete
+#print axioms PorepyVerif.C29.split_no_intersection
